@@ -29,6 +29,7 @@ Uniform(e) == IF Has(e, "xof") THEN HC(e.sha)!Xof(e.msg, e.dst, e.n) ELSE HC(e.s
 SuiteOK(e) ==
   LET ub == Uniform(e) IN
   /\ e.ok /\ Len(ub) = e.n
+  /\ e.tok                       \* the returned object is a consistent extended point: (P + B) - B = P through the API
   /\ CASE e.kind = "ro" -> LET Q == ExtAdd(MapPt(ToField(SubSeq(ub, 1, 48))), MapPt(ToField(SubSeq(ub, 49, 96))))
                                PP == ExtMulCofactor(Q)
                            IN e.out = EncodePoint(PP) /\ IsTorsionFree(PP)
